@@ -118,13 +118,14 @@ fn raw_cap(cap: usize, neg: bool) -> NonZeroIsize {
     NonZeroIsize::new(if neg { -(cap as isize) } else { cap as isize }).unwrap()
 }
 
-/// Arbitrary well-formed inline Repr (capacity 1 or 2, any sign, zero positive).
-fn mk_inline() -> (Repr, Model) {
+/// Arbitrary well-formed inline Repr of capacity class `cap` (1: at most one word, zero positive; 2: two words),
+/// any sign.  (One class per harness instance: with a symbolic inline/heap discriminant CBMC has to encode the
+/// heap branch of every accessor over a pointer made from the inline words, which is 50x slower.)
+fn mk_inline(cap: usize, neg: bool) -> (Repr, Model) {
     let lo: Word = any();
-    let hi: Word = any();
-    let neg: bool = any();
+    let hi: Word = if cap == 2 { any() } else { 0 };
     assume(!(lo == 0 && hi == 0 && neg));
-    let cap = if hi != 0 { 2 } else { 1 };
+    assume((cap == 2) == (hi != 0));
     let r = Repr { data: ReprData { inline: [lo, hi] }, capacity: raw_cap(cap, neg) };
     let mut m = Model { neg, w: [0; MAXW], len: 0 };
     m.w[0] = lo;
@@ -140,10 +141,9 @@ fn mk_inline() -> (Repr, Model) {
 }
 
 /// Arbitrary well-formed heap Repr with concrete capacity `cap`: symbolic length, sign, contents.
-fn mk_heap(cap: usize) -> (Repr, Model) {
+fn mk_heap(cap: usize, neg: bool) -> (Repr, Model) {
     let w: [Word; MAXW] = any();
     let len: usize = any();
-    let neg: bool = any();
     assume(len >= 3 && len <= cap && cap <= spec_max_compact(len));
     assume(w[len - 1] != 0);
     let layout = alloc::alloc::Layout::array::<Word>(cap).unwrap();
@@ -158,12 +158,15 @@ fn mk_heap(cap: usize) -> (Repr, Model) {
     (r, Model { neg, w, len })
 }
 
-/// kind 0: inline; kind c >= 3: heap with capacity c.
-fn mk(kind: usize) -> (Repr, Model) {
-    if kind == 0 {
-        mk_inline()
+/// kind 1, 2: inline with that capacity; kind c >= 3: heap with capacity c.
+/// The sign is a *concrete* parameter as well (the harness macros branch on a symbolic bool and run the body
+/// once per sign): |capacity| of a value with symbolic sign is not a constant for CBMC, which then encodes the
+/// inline and the heap branch of every accessor.
+fn mk(kind: usize, neg: bool) -> (Repr, Model) {
+    if kind <= 2 {
+        mk_inline(kind, neg)
     } else {
-        mk_heap(kind)
+        mk_heap(kind, neg)
     }
 }
 
@@ -201,6 +204,21 @@ macro_rules! per_kind {
         #[cfg_attr(kani, kani::unwind(12))]
         #[cfg_attr(not(kani), test)]
         fn $name() {
+            if any::<bool>() {
+                $body($k, true);
+            } else {
+                $body($k, false);
+            }
+            cover();
+        }
+    )*};
+}
+macro_rules! per_n {
+    ($body:ident; $($name:ident = $k:expr),* $(,)?) => {$(
+        #[cfg_attr(kani, kani::proof)]
+        #[cfg_attr(kani, kani::unwind(12))]
+        #[cfg_attr(not(kani), test)]
+        fn $name() {
             $body($k);
             cover();
         }
@@ -212,7 +230,12 @@ macro_rules! per_kind2 {
         #[cfg_attr(kani, kani::unwind(12))]
         #[cfg_attr(not(kani), test)]
         fn $name() {
-            $body($k, $j);
+            match (any::<bool>(), any::<bool>()) {
+                (false, false) => $body($k, false, $j, false),
+                (false, true) => $body($k, false, $j, true),
+                (true, false) => $body($k, true, $j, false),
+                (true, true) => $body($k, true, $j, true),
+            }
             cover();
         }
     )*};
@@ -296,16 +319,13 @@ fn body_from_buffer(cap: usize) {
     assert!((r.capacity() <= 2) == (n <= 2));
     finish(r, &Model { neg: false, w, len: n });
 }
-per_kind!(body_from_buffer; vk_int_repr_from_buffer_c1 = 1, vk_int_repr_from_buffer_c2 = 2,
+per_n!(body_from_buffer; vk_int_repr_from_buffer_c1 = 1, vk_int_repr_from_buffer_c2 = 2,
     vk_int_repr_from_buffer_c3 = 3, vk_int_repr_from_buffer_c4 = 4, vk_int_repr_from_buffer_c5 = 5,
     vk_int_repr_from_buffer_c6 = 6, vk_int_repr_from_buffer_c8 = 8, vk_int_repr_from_buffer_c10 = 10);
 
 // ---------------------------------------------------------------- from_ref
-#[cfg_attr(kani, kani::proof)]
-#[cfg_attr(kani, kani::unwind(12))]
-#[cfg_attr(not(kani), test)]
-fn vk_int_repr_from_ref() {
-    let (src, m) = mk(5);
+fn body_from_ref(kind: usize, neg: bool) {
+    let (src, m) = mk(kind, neg);
     let (sign, t) = src.as_sign_typed();
     assert!(sign == sign_of(m.neg));
     let r = Repr::from_ref(t);
@@ -313,36 +333,30 @@ fn vk_int_repr_from_ref() {
     want.neg = false;
     finish(r, &want);
     finish(src, &m);
-    let (src, m) = mk(0);
-    let r = Repr::from_ref(src.as_sign_typed().1);
-    let mut want = m;
-    want.neg = false;
-    finish(r, &want);
-    finish(src, &m);
-    cover();
 }
+per_kind!(body_from_ref; vk_int_repr_from_ref_i1 = 1, vk_int_repr_from_ref_i2 = 2, vk_int_repr_from_ref_h3 = 3,
+    vk_int_repr_from_ref_h6 = 6);
 
 // ---------------------------------------------------------------- into_buffer
 fn body_into_buffer(kind: usize) {
-    let (r, m) = mk(kind);
-    assume(!m.neg);
+    let (r, m) = mk(kind, false);
     let b = r.into_buffer();
-    if kind != 0 {
+    if kind >= 3 {
         assert!(b.capacity() == kind);
     }
     assert!(b.capacity() >= m.len);
     finish_buffer(b, &m);
 }
-per_kind!(body_into_buffer; vk_int_repr_into_buffer_i = 0, vk_int_repr_into_buffer_h3 = 3,
+per_n!(body_into_buffer; vk_int_repr_into_buffer_i1 = 1, vk_int_repr_into_buffer_i2 = 2, vk_int_repr_into_buffer_h3 = 3,
     vk_int_repr_into_buffer_h5 = 5, vk_int_repr_into_buffer_h7 = 7);
 
 // ---------------------------------------------------------------- as_typed / as_sign_typed / as_sign_slice / as_slice / len
-fn body_views(kind: usize) {
-    let (r, m) = mk(kind);
+fn body_views(kind: usize, neg: bool) {
+    let (r, m) = mk(kind, neg);
     assert!(r.len() == m.len);
     assert!(r.sign() == sign_of(m.neg));
     assert!(r.is_zero() == (m.len == 0));
-    if kind != 0 {
+    if kind >= 3 {
         assert!(r.capacity() == kind);
     }
     {
@@ -368,7 +382,7 @@ fn body_views(kind: usize) {
     }
     finish(r, &m);
 }
-per_kind!(body_views; vk_int_repr_views_i = 0, vk_int_repr_views_h3 = 3, vk_int_repr_views_h6 = 6);
+per_kind!(body_views; vk_int_repr_views_i1 = 1, vk_int_repr_views_i2 = 2, vk_int_repr_views_h3 = 3, vk_int_repr_views_h6 = 6);
 
 // ---------------------------------------------------------------- into_typed / into_sign_typed
 fn check_typed(t: TypedRepr, m: &Model, kind: usize) {
@@ -381,49 +395,45 @@ fn check_typed(t: TypedRepr, m: &Model, kind: usize) {
     }
 }
 fn body_into_typed(kind: usize) {
-    let (r, m) = mk(kind);
-    assume(!m.neg);
+    let (r, m) = mk(kind, false);
     let t = r.into_typed();
     check_typed(t, &m, kind);
 }
-per_kind!(body_into_typed; vk_int_repr_into_typed_i = 0, vk_int_repr_into_typed_h3 = 3,
+per_n!(body_into_typed; vk_int_repr_into_typed_i1 = 1, vk_int_repr_into_typed_i2 = 2, vk_int_repr_into_typed_h3 = 3,
     vk_int_repr_into_typed_h6 = 6);
 
-fn body_into_sign_typed(kind: usize) {
-    let (r, m) = mk(kind);
+fn body_into_sign_typed(kind: usize, neg: bool) {
+    let (r, m) = mk(kind, neg);
     let (s, t) = r.into_sign_typed();
     assert!(s == sign_of(m.neg));
     check_typed(t, &m, kind);
 }
-per_kind!(body_into_sign_typed; vk_int_repr_into_sign_typed_i = 0, vk_int_repr_into_sign_typed_h3 = 3,
+per_kind!(body_into_sign_typed; vk_int_repr_into_sign_typed_i1 = 1, vk_int_repr_into_sign_typed_i2 = 2, vk_int_repr_into_sign_typed_h3 = 3,
     vk_int_repr_into_sign_typed_h6 = 6);
 
 // ---------------------------------------------------------------- with_sign / neg
-fn body_with_sign(kind: usize) {
-    let (r, m) = mk(kind);
-    let neg: bool = any();
-    let r2 = r.with_sign(sign_of(neg));
+fn body_with_sign(kind: usize, neg: bool) {
+    let (r, m) = mk(kind, neg);
+    let to_neg: bool = any();
+    let r2 = r.with_sign(sign_of(to_neg));
     let mut want = m;
-    want.neg = neg && m.len != 0; // zero is never negative
+    want.neg = to_neg && m.len != 0; // zero is never negative
     finish(r2, &want);
 }
-per_kind!(body_with_sign; vk_int_repr_with_sign_i = 0, vk_int_repr_with_sign_h3 = 3,
+per_kind!(body_with_sign; vk_int_repr_with_sign_i1 = 1, vk_int_repr_with_sign_i2 = 2, vk_int_repr_with_sign_h3 = 3,
     vk_int_repr_with_sign_h6 = 6);
 
-fn body_neg(kind: usize) {
-    let (r, m) = mk(kind);
+fn body_neg(kind: usize, neg: bool) {
+    let (r, m) = mk(kind, neg);
     let r2 = r.neg();
     let mut want = m;
     want.neg = !m.neg && m.len != 0;
     finish(r2, &want);
 }
-per_kind!(body_neg; vk_int_repr_neg_i = 0, vk_int_repr_neg_h3 = 3, vk_int_repr_neg_h6 = 6);
+per_kind!(body_neg; vk_int_repr_neg_i1 = 1, vk_int_repr_neg_i2 = 2, vk_int_repr_neg_h3 = 3, vk_int_repr_neg_h6 = 6);
 
-#[cfg_attr(kani, kani::proof)]
-#[cfg_attr(kani, kani::unwind(12))]
-#[cfg_attr(not(kani), test)]
-fn vk_int_repr_signum() {
-    let (r, m) = mk(0);
+fn body_signum(kind: usize, neg: bool) {
+    let (r, m) = mk(kind, neg);
     let s = r.signum();
     let mut want = Model { neg: m.neg, w: [0; MAXW], len: 0 };
     if m.len != 0 {
@@ -432,14 +442,8 @@ fn vk_int_repr_signum() {
     }
     finish(s, &want);
     finish(r, &m);
-    let (r, m) = mk(4);
-    let s = r.signum();
-    let mut want = Model { neg: m.neg, w: [0; MAXW], len: 1 };
-    want.w[0] = 1;
-    finish(s, &want);
-    finish(r, &m);
-    cover();
 }
+per_kind!(body_signum; vk_int_repr_signum_i1 = 1, vk_int_repr_signum_i2 = 2, vk_int_repr_signum_h4 = 4);
 
 // ---------------------------------------------------------------- clone
 fn scribble(r: &mut Repr) {
@@ -463,8 +467,8 @@ fn scribble(r: &mut Repr) {
     }
 }
 
-fn body_clone(kind: usize) {
-    let (r, m) = mk(kind);
+fn body_clone(kind: usize, neg: bool) {
+    let (r, m) = mk(kind, neg);
     let mut c = r.clone();
     assert!(wf_repr(&c));
     assert!(model_eq(&model_of(&c), &m));
@@ -474,13 +478,13 @@ fn body_clone(kind: usize) {
     drop(c);
     finish(r, &m);
 }
-per_kind!(body_clone; vk_int_repr_clone_i = 0, vk_int_repr_clone_h3 = 3, vk_int_repr_clone_h4 = 4,
+per_kind!(body_clone; vk_int_repr_clone_i1 = 1, vk_int_repr_clone_i2 = 2, vk_int_repr_clone_h3 = 3, vk_int_repr_clone_h4 = 4,
     vk_int_repr_clone_h5 = 5, vk_int_repr_clone_h6 = 6, vk_int_repr_clone_h7 = 7);
 
 // ---------------------------------------------------------------- clone_from (dst kind, src kind)
-fn body_clone_from(dk: usize, sk: usize) {
-    let (mut d, _dm) = mk(dk);
-    let (s, sm) = mk(sk);
+fn body_clone_from(dk: usize, dneg: bool, sk: usize, sneg: bool) {
+    let (mut d, _dm) = mk(dk, dneg);
+    let (s, sm) = mk(sk, sneg);
     d.clone_from(&s);
     assert!(wf_repr(&d));
     assert!(model_eq(&model_of(&d), &sm));
@@ -494,22 +498,22 @@ fn body_clone_from(dk: usize, sk: usize) {
     finish(s, &sm);
 }
 per_kind2!(body_clone_from;
-    vk_int_repr_clone_from_i_i = (0, 0),
-    vk_int_repr_clone_from_i_h3 = (0, 3), vk_int_repr_clone_from_i_h7 = (0, 7),
-    vk_int_repr_clone_from_h3_i = (3, 0), vk_int_repr_clone_from_h5_i = (5, 0), vk_int_repr_clone_from_h7_i = (7, 0),
+    vk_int_repr_clone_from_i1_i1 = (1, 1), vk_int_repr_clone_from_i1_i2 = (1, 2), vk_int_repr_clone_from_i2_i1 = (2, 1),
+    vk_int_repr_clone_from_i2_i2 = (2, 2), vk_int_repr_clone_from_i1_h3 = (1, 3), vk_int_repr_clone_from_i2_h3 = (2, 3),
+    vk_int_repr_clone_from_i1_h7 = (1, 7), vk_int_repr_clone_from_i2_h7 = (2, 7), vk_int_repr_clone_from_h3_i1 = (3, 1),
+    vk_int_repr_clone_from_h3_i2 = (3, 2), vk_int_repr_clone_from_h5_i1 = (5, 1), vk_int_repr_clone_from_h7_i2 = (7, 2),
     vk_int_repr_clone_from_h3_h7 = (3, 7), vk_int_repr_clone_from_h4_h7 = (4, 7), vk_int_repr_clone_from_h5_h7 = (5, 7),
     vk_int_repr_clone_from_h6_h7 = (6, 7), vk_int_repr_clone_from_h7_h7 = (7, 7), vk_int_repr_clone_from_h8_h7 = (8, 7),
-    vk_int_repr_clone_from_h9_h7 = (9, 7),
-    vk_int_repr_clone_from_h3_h3 = (3, 3), vk_int_repr_clone_from_h7_h3 = (7, 3), vk_int_repr_clone_from_h8_h3 = (8, 3),
-    vk_int_repr_clone_from_h9_h4 = (9, 4));
+    vk_int_repr_clone_from_h9_h7 = (9, 7), vk_int_repr_clone_from_h3_h3 = (3, 3), vk_int_repr_clone_from_h7_h3 = (7, 3),
+    vk_int_repr_clone_from_h8_h3 = (8, 3), vk_int_repr_clone_from_h9_h4 = (9, 4));
 
 // ---------------------------------------------------------------- drop
-fn body_drop(kind: usize) {
-    let (r, _m) = mk(kind);
+fn body_drop(kind: usize, neg: bool) {
+    let (r, _m) = mk(kind, neg);
     assert!(wf_repr(&r));
     drop(r);
 }
-per_kind!(body_drop; vk_int_repr_drop_i = 0, vk_int_repr_drop_h3 = 3, vk_int_repr_drop_h6 = 6);
+per_kind!(body_drop; vk_int_repr_drop_i1 = 1, vk_int_repr_drop_i2 = 2, vk_int_repr_drop_h3 = 3, vk_int_repr_drop_h6 = 6);
 
 // ---------------------------------------------------------------- from_static_words
 // (symbolic contents through a leaked box that is reclaimed afterwards; the Repr itself must not be dropped)
@@ -533,7 +537,7 @@ fn body_from_static_words(n: usize) {
     mem::forget(r);
     drop(unsafe { Box::from_raw(raw) });
 }
-per_kind!(body_from_static_words; vk_int_repr_from_static_words_n0 = 0, vk_int_repr_from_static_words_n1 = 1,
+per_n!(body_from_static_words; vk_int_repr_from_static_words_n0 = 0, vk_int_repr_from_static_words_n1 = 1,
     vk_int_repr_from_static_words_n2 = 2, vk_int_repr_from_static_words_n3 = 3,
     vk_int_repr_from_static_words_n5 = 5);
 
